@@ -443,6 +443,9 @@ class Core:
             if len(grp) == 1:
                 out.append(grp[0])
                 continue
+            if self.cur is not None and getattr(self.cur, 'join', 'fresh') == 'all':
+                out.append(self._merge_group(grp))
+                continue
             # split the group so that only states whose heaps differ by writes to self-allocated objects are joined
             sub = {}
             for s in grp:
